@@ -334,13 +334,23 @@ def observe(nn_state, R, numeric=False, force=None):
         gcap.append((k, init_copy, out.clone()))
         return out
 
+    LAYOUT = (("weights", "visible_bias", "hidden_bias"), ("weights_W", "weights_U", "visible_bias", "hidden_bias", "aux_bias"))
+
+    def in_layout_order(rbm_):
+        """the parameters BY NAME in the order of the flat gradient vector (spec/LayoutDefs.tla) - not in whatever
+        order the module currently enumerates them"""
+        for names in LAYOUT:
+            if all(hasattr(rbm_, n) for n in names) and len(list(rbm_.parameters())) == len(names):
+                return [getattr(rbm_, n) for n in names]
+        return list(rbm_.parameters())
+
     def pre_step(opt):
         x = R.numeric[-1]
         x["lr"] = int(round(opt.param_groups[0]["lr"] * 1e6))
         x["_lr"] = opt.param_groups[0]["lr"]
         x["shapes"], x["pgrad"], x["_before"] = [], [], []
         for net in nn_state.networks:
-            ps = list(getattr(nn_state, net).parameters())
+            ps = in_layout_order(getattr(nn_state, net))
             x["shapes"].append([int(p.numel()) for p in ps])
             x["pgrad"].append([fx(p.grad) if p.grad is not None else [] for p in ps])
             x["_before"].append([p.detach().clone() for p in ps])
@@ -349,7 +359,7 @@ def observe(nn_state, R, numeric=False, force=None):
         x = R.numeric[-1]
         x["dlr"] = []
         for net, before in zip(nn_state.networks, x.pop("_before")):
-            ps = list(getattr(nn_state, net).parameters())
+            ps = in_layout_order(getattr(nn_state, net))
             x["dlr"].append([fx((b0 - p.detach()) / x["_lr"]) for b0, p in zip(before, ps)])
         x.pop("_lr")
 
